@@ -104,6 +104,12 @@ var properties = map[string][]harnessSpec{
 		{Name: "astconv.VerifC05Classifier", Quick: map[string]int{"C05.maxChords": 2, "C05.preemptions": 1}, Thorough: map[string]int{"C05.maxChords": 3, "C05.preemptions": 2}, Marks: []string{"end", "classified", "refused"}},
 		{Name: "op.VerifC14Chain", Quick: map[string]int{"C14.maxLen": 2}, Thorough: map[string]int{"C14.maxLen": 3}, Marks: end},
 	},
+	"C08": {
+		{Name: "midix.VerifC08File", Quick: map[string]int{"C08.maxOps": 2, "C08.maxTracks": 2, "C08.maxKeys": 2}, Thorough: map[string]int{"C08.maxOps": 2, "C08.maxTracks": 3, "C08.maxKeys": 3}, Marks: end},
+		{Name: "cmd.VerifC08WriteCmd", Quick: map[string]int{"C08.cmdTracks": 4}, Thorough: map[string]int{"C08.cmdTracks": 8}, Marks: end},
+		{Name: "midix.VerifC02NoteStep", Quick: map[string]int{"C02.maxTracks": 3, "C02.maxKeys": 3}, Thorough: map[string]int{"C02.maxTracks": 4, "C02.maxKeys": 5}, Marks: end},
+		{Name: "midix.VerifC06CloseStep", Quick: map[string]int{"C06.maxTracks": 8}, Thorough: map[string]int{"C06.maxTracks": 32}, Marks: end},
+	},
 	"C17": {
 		{Name: "desc.VerifC17Diatonic", Marks: end},
 	},
@@ -113,11 +119,12 @@ var properties = map[string][]harnessSpec{
 		{Name: "midix.VerifC06Select", Solver: "cvc5-int", Quick: map[string]int{"C06.maxTracksSel": 32}, Thorough: map[string]int{"C06.maxTracksSel": 64}, Marks: end, TimeoutS: 60},
 		{Name: "midix.VerifC06SelectRejects", Marks: end},
 		{Name: "midix.VerifC06CloseStep", Quick: map[string]int{"C06.maxTracks": 8}, Thorough: map[string]int{"C06.maxTracks": 32}, Marks: end},
+		{Name: "cmd.VerifC08WriteCmd", Quick: map[string]int{"C08.cmdTracks": 4}, Thorough: map[string]int{"C08.cmdTracks": 8}, Marks: end},
 	},
 }
 
 func init() {
-	for _, id := range []string{"C08"} {
+	for _, id := range []string{} {
 		notApplicable[id] = "check not built yet in this session (work in progress; see DESIGN.md section 4 for the plan)"
 	}
 }
